@@ -40,7 +40,7 @@ INFO = dict(
               'SYMBOLIC sizes (each read returns between 1 and the requested number of bytes), with end-of-stream at a symbolic position: '
               'exactly the requested bytes in order, or EOFError; the call outcome equals the unchunked outcome.',
   bounds={'quick': 'text of <= 2 symbolic characters; replies read in <= 6-byte buffers with symbolic chunking; one call per scenario',
-          'thorough': 'text of <= 3 characters; <= 8-byte buffers'},
+          'thorough': 'text of <= 4 characters; <= 10-byte buffers'},
   outside=['the accelerated C codec (A5: assumed equal to the pure-Python codec of the same library; cannot be executed symbolically)',
            'struct/container arguments beyond strings and one declared exception struct', 'very long strings'],
   stubs=['struct.pack/unpack in thrift.protocol.TBinaryProtocol -> symbolic model (3.4)', "bytes(text,'utf-8') in thrift.protocol.TProtocol -> symbolic UTF-8 model (3.6); "
@@ -59,7 +59,7 @@ def install():
 
 
 def jobs(tier):
-  mc = 2 if tier == 'quick' else 3
+  mc = 2 if tier == 'quick' else 4
   js = []
   for m in ('echo', 'risky', 'note', 'ping'):
     for n in (range(0, mc + 1) if m != 'ping' else (0,)):
@@ -67,7 +67,7 @@ def jobs(tier):
   for kind in ('value', 'declared', 'app', 'void', 'missing'):
     for n in (range(0, mc + 1) if kind in ('value', 'declared', 'app') else (0,)):
       js.append(dict(name='reply-%s-c%d' % (kind, n), op='reply', kind=kind, n=n, cost=4 ** n))
-  sz = 6 if tier == 'quick' else 8
+  sz = 6 if tier == 'quick' else 10
   for impl in ('scales_socket', 'varz_wrapper'):
     for s in range(1, sz + 1):
       js.append(dict(name='readall-%s-%d' % (impl, s), op='readall', impl=impl, sz=s, cost=2 ** s))
